@@ -1,6 +1,6 @@
 (* C02 — property theorems.  Only statements, `exact`, and Print Assumptions. *)
 From Sdns Require Import Common.Base Gen.C02 C02.Model C02.Spec
-  C02.ModelNsec3 C02.Proofs_Order C02.Proofs_Nsec C02.Proofs_Spec C02.Proofs_NsecTop C02.Proofs_Nsec3 C02.ModelCut C02.Proofs_Cut C02.ModelAuth C02.ModelShared C02.Proofs_Shared.
+  C02.ModelNsec3 C02.Proofs_Order C02.Proofs_Nsec C02.Proofs_Spec C02.Proofs_NsecTop C02.Proofs_Nsec3 C02.ModelCut C02.Proofs_Cut C02.ModelAuth C02.ModelShared C02.Proofs_Shared C02.Proofs_Gen.
 Open Scope N_scope.
 
 (* ---- canonical order (RFC 4034 §6.1) is a total order *)
@@ -278,3 +278,25 @@ Theorem shared_admission_guarded :
   admit_downstream lim maxttl st now (z_apex z) q cd ecs ds = st.
 Proof. exact (fun z lim maxttl st now q cd ecs ds => admit_downstream_guard z lim maxttl st now q cd ecs ds). Qed.
 Print Assumptions shared_admission_guarded.
+
+(* ---- the byte-level label functions of internal/dnsname, as srcgen translates them from the source on
+   every run (Gen.C02.go_compareDecodedFold / go_decodeOctet / go_equalFold), are the model's label order
+   and label equality: for all presentation labels a b and any fuel above their lengths, the Go loop
+   returns lcmp of the folded octet strings that the Go decoder itself decodes (`\\DDD`, `\\c`, plain), and
+   equalFold is label_eqb after folding *)
+Theorem compare_decoded_fold_is_lcmp :
+  forall fuel a b, (length a < fuel)%nat -> (length b < fuel)%nat ->
+  go_compareDecodedFold fuel a b =
+  Some (cmp_z (lcmp (fold_label (decode_from fuel a 0%Z)) (fold_label (decode_from fuel b 0%Z)))).
+Proof. exact gen_compare_decoded_fold. Qed.
+Print Assumptions compare_decoded_fold_is_lcmp.
+Theorem compare_decoded_fold_plain_is_lcmp :
+  forall fuel a b, ~ In 92 a -> ~ In 92 b -> (length a < fuel)%nat -> (length b < fuel)%nat ->
+  go_compareDecodedFold fuel a b = Some (cmp_z (lcmp (fold_label a) (fold_label b))).
+Proof. exact gen_compare_decoded_fold_plain. Qed.
+Print Assumptions compare_decoded_fold_plain_is_lcmp.
+Theorem equal_fold_is_label_eqb :
+  forall fuel a b, (length a < fuel)%nat ->
+  go_equalFold fuel a b = Some (label_eqb (fold_label a) (fold_label b)).
+Proof. exact gen_equal_fold. Qed.
+Print Assumptions equal_fold_is_label_eqb.
